@@ -163,6 +163,10 @@ def exhaustive(ttl, depth, with_data, label):
 
 def random_case(rng, maxlen):
     ttl = rng.choice([1, 2, 3, 3, 5])
+    if rng.random() < 0.05:
+        # lifetimes of weeks: the configured number of seconds must not lose bits on its way to a time.Duration
+        # (4294968 s is the first value whose count of milliseconds no longer fits 32 bits)
+        ttl = rng.choice([86400, 4294967, 4294968, 10 ** 7])
     extreme = rng.random() < 0.1
     doms = [0, 4294967295] if extreme else DOMS
     ids = [256, 65535] if extreme else IDS
